@@ -26,8 +26,8 @@ ASSUMPTIONS = [
     "'interior' faces of an axis are those not touching the outer boundary in any tangential direction (grid.py comments)",
 ]
 FLOORS = {
-    "quick": {"grid_constructed": 186 * 2 + 100, "connectivity_bijection": 400},
-    "thorough": {"grid_constructed": 186 * 2 + 1000, "connectivity_bijection": 1400},
+    "quick": {"grid_rejudged_after_use": 180, "grid_constructed": 186 * 2 + 100, "connectivity_bijection": 400},
+    "thorough": {"grid_rejudged_after_use": 180, "grid_constructed": 186 * 2 + 1000, "connectivity_bijection": 1400},
 }
 
 
@@ -187,6 +187,25 @@ def run_shard(spec, R):
                         vs[d] = vs[d] / 2
                     vs = want.tolist()
                 R.check(np.array_equal(np.asarray(g.voxel_size, float), want), "voxel_size_kept", {"shape": list(shape)})
+                if kind == "list":
+                    # the grid after use: every finite-volume operator of the library is built on it, then the grid
+                    # itself is judged again (its tables are shared, read-only inputs of those operators)
+                    used = []
+                    for opname in ("FVDivergence", "FVMass", "FVTangentialFaceReconstruction", "FVFullFaceReconstruction"):
+                        try:
+                            getattr(darsia, opname)(g)
+                            used.append(opname)
+                        except Exception:  # constructibility of operators is C06's business
+                            pass
+                    for mode in ("faces",):
+                        try:
+                            darsia.FVMass(g, mode)
+                        except Exception:
+                            pass
+                    src[0] = "direct:after_use"
+                    judge_grid(R, g, "direct:after_use")
+                    src[0] = f"direct:{kind}"
+                    R.count("grid_rejudged_after_use")
                 if i < 3:
                     R.sample({"shape": list(shape), "voxel_size": vs, "num_faces": int(g.num_faces)})
     n_img = spec["n_img"] // spec["nshards"]
